@@ -18,7 +18,8 @@ CONSTANTS WithHist
 
 \* "push-orphans-then-valid": sixty-four momentums at the next height whose predecessor nobody knows (the most one remote may
 \* have queued), then the genuine one from the same remote - what cannot be imported must not use up the remote's allowance
-Pushes   == {"push-valid", "push-bad-signature", "push-wrong-producer", "push-known", "push-orphans-then-valid"}
+\* "hash-orphans-then-valid": sixty-four announced hashes, each answered with such an orphan, then the genuine momentum pushed
+Pushes   == {"push-valid", "push-bad-signature", "push-wrong-producer", "push-known", "push-orphans-then-valid", "hash-orphans-then-valid"}
 Hashes   == {"hash-valid", "hash-unknown", "hash-many", "hash-known", "hash-valid-twice"}
 \* answers to the node's request for an announced hash: the momentum asked for; a momentum it did not ask for; the momentum
 \* asked for with a broken signature (its hash field untouched); undecodable; nothing in the list; no answer at all
@@ -38,8 +39,8 @@ Rec(step) == hist' = IF WithHist THEN Append(hist, step @@ [has |-> has']) ELSE 
 Announce(a) ==
   /\ n = 0 /\ asked = "no"
   /\ n' = 1 /\ alive' = TRUE /\ ann' = a
-  /\ genuine' = (a \in {"push-valid", "push-orphans-then-valid"})
-  /\ has' = (a \in {"push-valid", "push-orphans-then-valid"})
+  /\ genuine' = (a \in {"push-valid", "push-orphans-then-valid", "hash-orphans-then-valid"})
+  /\ has' = (a \in {"push-valid", "push-orphans-then-valid", "hash-orphans-then-valid"})
   /\ asked' = CASE a \in {"hash-valid", "hash-valid-twice"} -> "M"
                 [] a \in {"hash-unknown", "hash-many"} -> "other"
                 [] OTHER -> "no"                        \* pushes are not asked about; known hashes are not asked for
